@@ -249,3 +249,20 @@ impl Trace {
         self.line.clear();
     }
 }
+
+/// A panic that unwound out of harness code (outside an operation window). If it originated in
+/// the crate under test (an accessor called by an observer) it is a violation of the given
+/// classes; anything else is a harness error.
+pub fn classify_stray_panic(classes: u32) -> (u32, String) {
+    let m = crate::elem::LAST_PANIC.with(|p| p.borrow().clone());
+    crate::elem::H.with(|h| {
+        if let Ok(mut h) = h.try_borrow_mut() {
+            h.in_op = false;
+        }
+    });
+    if m.contains("/repo/") {
+        (classes, format!("a crate accessor panicked while the harness was observing the buffer: {m}"))
+    } else {
+        (cls::HARNESS, format!("harness code panicked: {m}"))
+    }
+}
